@@ -115,17 +115,24 @@ def isolated_chain(history, i):
     """The same call in a fresh process: builds stand alone, re-uses need the build that made the spec."""
     op = history[i]
     if op[0] in ("reuse", "mm_of"):
-        return [history[op[1]], [op[0], 0, op[2]]]
+        return [history[op[1]], [op[0], 0] + list(op[2:])]
     if op[0] == "joint":
-        return [history[k] for k in op[1]] + [["joint", list(range(len(op[1]))), op[2]]]
+        return [history[k] for k in op[1]] + [["joint", list(range(len(op[1])))] + list(op[2:])]
     return [op]
 
 
 # --------------------------------------------------------------------------- enumeration
 
 
-def pair_histories(core, data=DATA):
+def _uses_shadowable(spec_name):
+    return any(t in json.dumps(SPECS[spec_name]) for t in ("center(", "scale("))
+
+
+def pair_histories(core, data=DATA, shadow_data=("d0",)):
     ops = [[k, SPECS[s], d, "pandas"] for k in BUILD_KINDS for s in core for d in data]
+    # the same builds with a context that binds `center` / `scale` to plain user functions (both orders arise
+    # because every ordered pair of ops is taken)
+    ops += [[k, SPECS[s], d, "pandas", "shadow"] for k in BUILD_KINDS for s in core if _uses_shadowable(s) for d in shadow_data]
     for o1, o2 in itertools.product(ops, repeat=2):
         yield [o1, o2, ["joint", [0, 1], "d2"], ["reuse", 0, "d2"], ["reuse", 1, "d0"]]
 
@@ -145,6 +152,9 @@ def random_histories(rng, count):
             else:
                 s = rng.choice(focus) if rng.random() < 0.8 else rng.choice(names)
                 h.append([rng.choice(BUILD_KINDS), SPECS[s], rng.choice(DATA_ALL), rng.choice(OUTPUTS)])
+            # some calls see a context that shadows built-in transform names with plain functions
+            if rng.random() < (0.3 if h[-1][0] in BUILD_KINDS and _uses_shadowable(_spec_name(h[-1][1])) else 0.08):
+                h[-1].append("shadow")
         yield h
 
 
@@ -154,6 +164,8 @@ def random_histories(rng, count):
 def classify(history, i):
     op = history[i]
     tags = [op[0]]
+    if any((o[-1] == "shadow") != (op[-1] == "shadow") for o in history[:i]):
+        tags.append("context-shadowing-differs-from-an-earlier-call")
     if op[0] in ("reuse", "mm_of"):
         origin = history[op[1]]
         tags.append("spec-from-" + origin[0])
@@ -259,7 +271,7 @@ def run_bounded(ctx):
     )
     core = CORE_THOROUGH if ctx.thorough else CORE
     pair_data = DATA + ("d3",) if ctx.thorough else DATA_KINDS
-    pairs = list(pair_histories(core, pair_data))
+    pairs = list(pair_histories(core, pair_data, ("d0", "d2") if ctx.thorough else ("d0",)))
     rand = list(random_histories(rng, 3000 if ctx.thorough else 250))
     every = pairs + rand
     chains = {}
@@ -274,11 +286,12 @@ def run_bounded(ctx):
     with ctx.bounded(
         "pairs",
         rule=f"every ordered pair of builds over (entry: model_matrix / shared Formula object / shared un-materialized ModelSpec) x "
-        f"formulas {core} x data {list(pair_data)} (d3: the text column A holds numbers; pandas output), followed by building both obtained specs jointly in one ModelSpecs "
+        f"formulas {core} x data {list(pair_data)} (d3: the text column A holds numbers; pandas output) plus, for formulas using center/scale, the same builds under a "
+        "context that binds `center`/`scale` to plain user functions, followed by building both obtained specs jointly in one ModelSpecs "
         "and then re-using each of them on other data; "
         "each history in its own fresh process; a history is one case",
         exhaustive=True,
-        bound=f"{len(pairs)} histories of 5 calls over a {len(core) * 3 * len(pair_data)}-call vocabulary",
+        bound=f"{len(pairs)} histories of 5 calls over a {int(round(len(pairs) ** 0.5))}-call vocabulary",
     ) as b:
         rep = K.Reporter(ctx, b)
         base_pairs = run_zygotes(pairs, "0")
@@ -292,7 +305,8 @@ def run_bounded(ctx):
         "builds (model_matrix, shared Formula, shared un-materialized spec), re-uses (spec.get_model_matrix, model_matrix(<earlier "
         "result>)) and joint builds of two earlier specs in one ModelSpecs; context holds mutable lists / dicts / arrays that formulas "
         "pass to transforms (knots=, contrasts=, levels=, center=); frames have columns whose names are not identifiers ('my col', "
-        "'a-b'; one frame also has 'my_col') used back-ticked in several stateful factors; histories revolve around one or two formulas; non-trivial = more than one call",
+        "'a-b'; one frame also has 'my_col') used back-ticked in several stateful factors; some calls get a context that shadows the built-in `center`/`scale` with plain "
+        "functions while other calls of the same history do not; histories revolve around one or two formulas; non-trivial = more than one call",
         exhaustive=False,
         bound="history length<=5",
     ) as b:
